@@ -521,6 +521,7 @@ func cmdCheck(args []string) int {
 		class string
 	}
 	classes := map[string]*hit{}
+	classRuns := map[string]int{}
 	nviol := 0
 	for _, r := range all {
 		seen := map[string]bool{}
@@ -535,6 +536,7 @@ func cmdCheck(args []string) int {
 			}
 			seen[cl] = true
 			nviol++
+			classRuns[cl]++
 			if h := classes[cl]; h == nil || r.Seed < h.r.Seed {
 				classes[cl] = &hit{r, v, cl}
 			}
@@ -548,6 +550,9 @@ func cmdCheck(args []string) int {
 		}
 	}
 	sort.Strings(classNames)
+	for _, cl := range classNames {
+		fmt.Printf("class %s: %d of %d runs (first seed %d)\n", cl, classRuns[cl], len(all), classes[cl].r.Seed)
+	}
 	var reported []map[string]any
 	minBudget := 60 * time.Second
 	if *tier == "thorough" {
@@ -557,7 +562,7 @@ func cmdCheck(args []string) int {
 		h := classes[cl]
 		if kf := matchKnown(known, h.v); kf != nil {
 			fmt.Printf("KNOWN-FINDING: property=%s %s (clause %s, e.g. seed %d: %s)\n", id, kf.What, h.v.Clause, h.r.Seed, h.v.Detail)
-			reported = append(reported, map[string]any{"class": cl, "known_finding": kf.What, "seed": h.r.Seed})
+			reported = append(reported, map[string]any{"class": cl, "known_finding": kf.What, "seed": h.r.Seed, "runs": classRuns[cl]})
 			continue
 		}
 		// reproduce from the recorded tape, minimise, replay once more, then report
@@ -609,7 +614,7 @@ func cmdCheck(args []string) int {
 		}
 		fmt.Printf("violation class %s: seed %d profile %s, tape %d -> %d entries\n  %s\n", cl, h.r.Seed, h.r.Profile, len(tape), len(small), v3.Detail)
 		fmt.Printf("VIOLATION property=%s replay=%s\n", id, rp)
-		reported = append(reported, map[string]any{"class": cl, "seed": h.r.Seed, "replay": rp, "detail": v3.Detail})
+		reported = append(reported, map[string]any{"class": cl, "seed": h.r.Seed, "replay": rp, "detail": v3.Detail, "runs": classRuns[cl]})
 		rc = 1
 	}
 
